@@ -26,7 +26,7 @@ RULE = ("API level (virtual clock): real Throttle / StreamThrottle / ThrottleStr
         "non-trivial = at least one positive limit applies.")
 ASSUMPTIONS = ["virtual time of the simulated loop; eps = half a byte per reset fold plus float slack",
                "the bound is cumulative since the first limited I/O (an idle period earns credit), as the statement says"]
-REQUIRED_MONITORS = ["bound_checks", "delay_checks", "unlimited_ops", "e2e_bound_checks", "e2e_duration", "relogin_duration"]
+REQUIRED_MONITORS = ["bound_checks", "delay_checks", "unlimited_ops", "e2e_bound_checks", "e2e_duration", "relogin_duration", "relogin_shared"]
 ANCHOR_FUNCTIONS = ['common.py:Throttle.wait', 'common.py:Throttle.append', 'common.py:ThrottleStreamIO.wait']
 EXHAUSTIVE = {"quick": False, "thorough": False}
 
@@ -393,10 +393,60 @@ async def relogin(net, hyg, plan):
         w.cleanup()
 
 
+async def relogin_shared(net, hyg, plan):
+    """black box: a per-user limit bounds the sum over all sessions of that user, also after one of them has logged in again
+    (as the same or as another user and back)"""
+    from ..corpus import Session
+    loop = asyncio.get_running_loop()
+    mon = {"relogin_shared": 0}
+    viol = []
+    L, size, d, n = plan["L"], plan["size"], plan["direction"], plan["sessions"]
+    key = ("write" if d == "download" else "read") + "_speed_limit"
+    users = [aioftp.User("other", None, base_path="/"), aioftp.User("slow", None, base_path="/", **{key: L})]
+    w = W.World(net, tree={"/f.bin": payload_bytes(size, 2)}, users=users)
+    await w.start()
+    try:
+        ss = [Session(net, 2121, name=f"u{i}") for i in range(n)]
+        for s in ss:
+            await s.run([["connect"], ["login", "slow"], ["cmd", "TYPE I"]])
+        for i in plan["relogins"]:
+            for who in plan["via"]:
+                await ss[i].run([["login", who]])
+            await ss[i].run([["login", "slow"]])
+        for s in ss:
+            await s.run([[plan.get("pcmd", "epsv")]])
+        t0 = loop.time()
+        if d == "download":
+            await asyncio.gather(*[s.step(["xfer", "RETR", "/f.bin"]) for s in ss])
+        else:
+            await asyncio.gather(*[s.step(["xfer", "STOR", f"/up{i}.bin", size, "before", 0, 4096, 0]) for i, s in enumerate(ss)])
+        dur = loop.time() - t0
+        codes = [s.outcomes[-1] for s in ss]
+        for s in ss:
+            await s.step(["quit"])
+        mon["relogin_shared"] += 1
+        if any([c for c in cs if c.isdigit()] != ["150", "226"] for cs in codes):
+            viol.append({"key": "relogin-transfer-failed", "msg": f"{plan}: transfers answered {codes}"})
+        else:
+            lower = (n * size - (2 * n + 2) * 8192 - L * 0.1) / L * 0.95
+            upper = n * size / L * 1.15 + 1.5
+            if dur < lower:
+                viol.append({"key": "faster-than-shared-limit-allows:relogin",
+                             "msg": f"{plan}: {n} sessions of one user limited to {L} B/s ({key}) moved {n * size} bytes in {dur:.3f}s "
+                                    f"(< {lower:.3f}s) after session(s) {plan['relogins']} logged in again"})
+            elif dur > upper:
+                viol.append({"key": "slower-than-limit-requires:relogin-shared", "msg": f"{plan}: took {dur:.3f}s, {n * size / L:.3f}s needed"})
+        await w.stop()
+        return {"violations": viol, "monitors": mon, "sig": sig_of(plan), "nontrivial": True,
+                "sample": {"plan": plan, "duration_s": round(dur, 4)}}
+    finally:
+        w.cleanup()
+
+
 def run_case(case):
     out = {"violations": [], "monitors": {}, "sigs": []}
     for plan in case["plans"]:
-        fn = {"api": api_trace, "e2e": e2e, "relogin": relogin}[plan["kind"]]
+        fn = {"api": api_trace, "e2e": e2e, "relogin": relogin, "relogin_shared": relogin_shared}[plan["kind"]]
 
         async def main(net, hyg, plan=plan, fn=fn):
             return await fn(net, hyg, plan)
@@ -471,6 +521,11 @@ def gen_cases(tier, seed):
                     rel.append({"kind": "relogin", "seed": seed, "order": order, "when": when, "direction": d, "level": level,
                                 "L": rng.choice([20000, 30000, 60000]), "size": rng.choice([100000, 122880, 200000]),
                                 "pcmd": rng.choice(["pasv", "epsv"])})
+    for n, relogins in ((2, [0]), (2, [0, 1]), (3, [1])):
+        for via in ([], ["other"]):
+            for d in ("download", "upload"):
+                rel.append({"kind": "relogin_shared", "seed": seed, "sessions": n, "relogins": relogins, "via": via, "direction": d,
+                            "L": rng.choice([30000, 40000]), "size": rng.choice([60000, 90000]), "pcmd": rng.choice(["pasv", "epsv"])})
     per = 40
     api = [p for p in plans if p["kind"] == "api"]
     ee = [p for p in plans if p["kind"] == "e2e"]
